@@ -4,6 +4,7 @@ CFG = dict(
     level="other",
     lean_modules=["ElysModel.Props.C19"],
     props_files=["ElysModel/Props/C19.lean"],
+    pre_cmds=["cd harness && go run ./cmd/mapranges -out ../lean/ElysModel/Gen/MapRanges.lean"],
     runs=[dict(mode="c19", n_quick=60, n_thorough=400, shards_quick=6, shards_thorough=14)],
     rule="the same genesis bytes and the same blocks (identical signed tx bytes and block times from the history grammar, 1-4 txs per block, time gaps up to 30 h so epochs roll, "
          "the burner configured so that its map-ordered loop sees several denoms; every 9 blocks an exact-out swap of exactly half a reserve - refused by its own limit half of "
